@@ -4,7 +4,7 @@
 BASE="$1"; OFF="$2"; JOBS="${3:-4}"
 cd "$(dirname "$0")/.."
 for k in $(seq 1 "$JOBS"); do tools/eval_copy.sh "$k" >/dev/null || exit 2; done
-ls -d "$BASE"/*-out | sed 's#.*/##; s#-out##' | while read id; do for i in 1 2; do echo "$id $i"; done; done > /tmp/seeded_jobs.txt
+ls -d "$BASE"/*-out | sed 's#.*/##; s#-out##' | while read id; do for i in 1 2 3 4; do [ -f "$BASE/$id-out/patch$i.diff" ] && echo "$id $i"; done; done > /tmp/seeded_jobs.txt
 # both changes of one property share a scratch worktree: keep them in the same job
 n=0; last=""
 while read id i; do
